@@ -51,9 +51,10 @@ def active() -> bool:
 
 
 class Obligation:
-    __slots__ = ("name", "status", "model", "detail", "time", "path", "kind", "backend")
+    __slots__ = ("name", "status", "model", "detail", "time", "path", "kind", "backend", "model_exc")
 
-    def __init__(self, name, status, model=None, detail="", t=0.0, path=None, kind="post", backend="z3"):
+    def __init__(self, name, status, model=None, detail="", t=0.0, path=None, kind="post", backend="z3", model_exc=None):
+        self.model_exc = model_exc  # an exception raised inside the value model (not by the code) earlier on this path
         self.name = name
         self.status = status  # proved | refuted | undecided
         self.model = model
@@ -73,6 +74,7 @@ class Obligation:
             "path": self.path,
             "model": self.model,
             "backend": self.backend,
+            "model_exc": self.model_exc,
         }
 
 
@@ -250,7 +252,7 @@ class Ctx:
                     model = {"terms": model, "input": None, "hook_error": repr(e)}
         else:
             st, model = "undecided", None
-        ob = Obligation(name, st, model, detail, dt, path=self.path_id(), kind=kind, backend=backend)
+        ob = Obligation(name, st, model, detail, dt, path=self.path_id(), kind=kind, backend=backend, model_exc=getattr(self, "model_exc", None))
         self.obligations.append(ob)
         if st == "proved":
             # standard assert-then-assume
@@ -522,6 +524,31 @@ class SymBool:
     def __repr__(self):
         return f"SymBool({self.e})"
 
+    # a numpy bool_ scalar (what an elementwise test of a 0-d array gives) answers the reductions of one element
+    def any(self, *a, **k):
+        return self
+
+    def all(self, *a, **k):
+        return self
+
+    def item(self):
+        return self
+
+    def copy(self):
+        return self
+
+    @property
+    def shape(self):
+        return ()
+
+    @property
+    def ndim(self):
+        return 0
+
+    @property
+    def size(self):
+        return 1
+
     # arithmetic on bools (sum of comparisons)
     def __add__(self, o):
         return SymInt(z3.If(self.e, 1, 0)) + o
@@ -666,6 +693,33 @@ class _SymNum:
 class SymInt(_SymNum):
     __slots__ = ()
 
+    def item(self):
+        return self
+
+    def copy(self):
+        return self
+
+    def max(self, *a, **k):
+        return self
+
+    def min(self, *a, **k):
+        return self
+
+    def sum(self, *a, **k):
+        return self
+
+    @property
+    def shape(self):
+        return ()
+
+    @property
+    def ndim(self):
+        return 0
+
+    @property
+    def size(self):
+        return 1
+
     def __index__(self):
         raise Unsupported(f"concrete value of symbolic int {self.e} required")
 
@@ -703,6 +757,12 @@ class SymReal(_SymNum):
 
     def mean(self, *a, **k):
         return self
+
+    def any(self, *a, **k):
+        return self != 0
+
+    def all(self, *a, **k):
+        return self != 0
 
     def flatten(self):
         raise Unsupported("flatten() of a symbolic scalar")
